@@ -1316,7 +1316,16 @@ class Interp(object):
             b = self.operand(st, fr, rv['b'])
             return self.binop(rv['op'], a, b, fr.fname, at)
         if k == 'un':
-            return self.unop(rv['op'], self.operand(st, fr, rv['a']))
+            a = self.operand(st, fr, rv['a'])
+            if rv['op'] == 'PtrMetadata' and isinstance(a, Ref):
+                # length of a slice whose contents are known item by item
+                try:
+                    tgt = self.deref(st, a)
+                except Undecided:
+                    tgt = None
+                if isinstance(tgt, Seq) and tgt.concrete():
+                    return BV.const(len(tgt.items), 64)
+            return self.unop(rv['op'], a)
         if k == 'cast':
             return self.cast(rv['ck'], self.operand(st, fr, rv['o']), rv['ty'])
         if k == 'discr':
